@@ -27,6 +27,20 @@ type ckksEnv struct {
 	rots  []int
 	rnd   *eng.Rand
 	evkPs []rlwe.EvaluationKeyParameters
+	fixed map[int]*rlwe.Ciphertext
+}
+
+// ptSparse encodes slots/4 values in a plaintext with LogDimensions.Cols-2 (sparse packing).
+func (e *ckksEnv) ptSparse(level int, scale string) *rlwe.Plaintext {
+	pt := ckks.NewPlaintext(e.p, level)
+	pt.Scale = e.scaleOf(scale)
+	if pt.LogDimensions.Cols >= 2 {
+		pt.LogDimensions.Cols -= 2
+	}
+	if err := e.ecd.Encode(e.vals()[:1<<pt.LogDimensions.Cols], pt); err != nil {
+		panic(err)
+	}
+	return pt
 }
 
 func newCKKSEnv(cfg pcfg, r *eng.Rand) (*ckksEnv, error) {
@@ -42,9 +56,7 @@ func newCKKSEnv(cfg pcfg, r *eng.Rand) (*ckksEnv, error) {
 	e.kgen = rlwe.NewKeyGenerator(p)
 	e.sk, e.pk = e.kgen.GenKeyPairNew()
 	e.sk2 = e.kgen.GenSecretKeyNew()
-	if cfg.Pow2 > 0 {
-		e.evkPs = []rlwe.EvaluationKeyParameters{{BaseTwoDecomposition: &cfg.Pow2}}
-	}
+	e.evkPs = cfg.evkParams()
 	rlk := e.kgen.GenRelinearizationKeyNew(e.sk, e.evkPs...)
 	e.rots = []int{1, 2, 3, 4, 5, 8, -1, -2}
 	galEls := p.GaloisElements(e.rots)
@@ -152,11 +164,30 @@ func (e *ckksEnv) scheme() *scheme[*ckks.Evaluator] {
 			ct.IsBatched = false
 			return ct
 		},
+		derived: []derivedEval[*ckks.Evaluator]{
+			{name: "shallowcopy", mk: func(p *poisoner) *ckks.Evaluator {
+				parent := ckks.NewEvaluator(e.p, e.evk)
+				p.ckksEval(parent)
+				child := parent.ShallowCopy()
+				p.ckksEval(parent)
+				return child
+			}},
+			{name: "withkey", mk: func(p *poisoner) *ckks.Evaluator {
+				parent := ckks.NewEvaluator(e.p, nil)
+				p.ckksEval(parent)
+				return parent.WithKey(cloneKeySet(e.evk))
+			}},
+		},
 	}
 }
 
 func (e *ckksEnv) operands(level int, scale string) []opnd {
 	ct1, ct2, pt := e.ct(level, scale, 1), e.ct(level, scale, 2), e.pt(level, scale)
+	ptSp := e.ptSparse(level, scale)
+	ctSp, err := e.enc.EncryptNew(ptSp)
+	if err != nil {
+		panic(err)
+	}
 	vc := e.vals()
 	vf := make([]float64, len(vc))
 	vbf := make([]*big.Float, len(vc))
@@ -206,6 +237,40 @@ func (e *ckksEnv) operands(level int, scale string) []opnd {
 		{kind: "[]float64", class: "vector", ptrish: true, mk: func() rlwe.Operand { return append([]float64(nil), vf...) }},
 		{kind: "[]*big.Float", class: "vector", ptrish: true, mk: func() rlwe.Operand { return cpBF() }},
 		{kind: "[]*bignum.Complex", class: "vector", ptrish: true, mk: func() rlwe.Operand { return cpBC() }},
+		// the remaining accepted scalar kind, boundary values of every kind, short vectors, sparse packing
+		{kind: "uint", class: "scalar", mk: func() rlwe.Operand { return uint(11) }},
+		{kind: "complex128", sub: "zero", class: "scalar", mk: func() rlwe.Operand { return complex(0, 0) }},
+		{kind: "complex128", sub: "unit", class: "scalar", mk: func() rlwe.Operand {
+			if e.p.RingType() == ring.ConjugateInvariant {
+				return complex(-1, 0)
+			}
+			return complex(0, 1)
+		}},
+		{kind: "float64", sub: "zero", class: "scalar", mk: func() rlwe.Operand { return float64(0) }},
+		{kind: "float64", sub: "minus-one", class: "scalar", mk: func() rlwe.Operand { return float64(-1) }},
+		{kind: "float64", sub: "tiny", class: "scalar", mk: func() rlwe.Operand { return float64(1e-30) }},
+		{kind: "int", sub: "zero", class: "scalar", mk: func() rlwe.Operand { return int(0) }},
+		{kind: "int", sub: "one", class: "scalar", mk: func() rlwe.Operand { return int(1) }},
+		{kind: "int", sub: "min", class: "scalar", mk: func() rlwe.Operand { return int(-1 << 63) }},
+		{kind: "int64", sub: "min", class: "scalar", mk: func() rlwe.Operand { return int64(-1 << 63) }},
+		{kind: "uint64", sub: "zero", class: "scalar", mk: func() rlwe.Operand { return uint64(0) }},
+		{kind: "uint64", sub: "max", class: "scalar", mk: func() rlwe.Operand { return ^uint64(0) }},
+		{kind: "*big.Int", sub: "zero", class: "scalar", ptrish: true, mk: func() rlwe.Operand { return new(big.Int) }},
+		{kind: "*big.Int", sub: "neg-huge", class: "scalar", ptrish: true, mk: func() rlwe.Operand {
+			return new(big.Int).Neg(new(big.Int).Lsh(big.NewInt(0x7654321), 100))
+		}},
+		{kind: "*big.Float", sub: "zero", class: "scalar", ptrish: true, mk: func() rlwe.Operand { return new(big.Float).SetPrec(128) }},
+		{kind: "*big.Float", sub: "prec53", class: "scalar", ptrish: true, mk: func() rlwe.Operand { return big.NewFloat(-2.5) }},
+		{kind: "*bignum.Complex", sub: "zero", class: "scalar", ptrish: true, mk: func() rlwe.Operand {
+			return &bignum.Complex{new(big.Float).SetPrec(128), new(big.Float).SetPrec(128)}
+		}},
+		{kind: "[]complex128", sub: "len3", class: "vector", ptrish: true, mk: func() rlwe.Operand { return append([]complex128(nil), vc[:3]...) }},
+		{kind: "[]float64", sub: "len1", class: "vector", ptrish: true, mk: func() rlwe.Operand { return []float64{vf[0]} }},
+		{kind: "[]float64", sub: "zeros", class: "vector", ptrish: true, mk: func() rlwe.Operand { return make([]float64, len(vf)) }},
+		{kind: "[]*big.Float", sub: "len2", class: "vector", ptrish: true, mk: func() rlwe.Operand { return cpBF()[:2] }},
+		{kind: "[]*bignum.Complex", sub: "len2", class: "vector", ptrish: true, mk: func() rlwe.Operand { return cpBC()[:2] }},
+		{kind: "pt", sub: "sparse", class: "pt", ptrish: true, mk: func() rlwe.Operand { return ptSp.CopyNew() }},
+		{kind: "ct1", sub: "sparse", class: "ct", ptrish: true, mk: func() rlwe.Operand { return ctSp.CopyNew() }},
 	}
 }
 
@@ -276,6 +341,8 @@ func runCKKSBinary(c *eng.Ctx, cfg pcfg, api string) {
 		{name: "scale-near/a>b", la: L - 1, lb: L, sa: "near", sb: "", da: 1, accLvl: L, accScale: "sq", accDeg: 1, onlyCt: true},
 		{name: "deg-a2", la: L, lb: L, da: 2, accLvl: L, accScale: "sq", accDeg: 2, onlyCt: true},
 		{name: "deg-a2/scale-ne", la: L, lb: L, sa: "", sb: "x3", da: 2, accLvl: L, accScale: "sq", accDeg: 2, onlyCt: true},
+		// the single-modulus level
+		{name: "lvl0", la: 0, lb: 0, da: 1, accLvl: 0, accScale: "sq", accDeg: 1, withSame: true},
 	}
 	for _, v := range vs {
 		if !row.accum && strings.Contains(v.name, "/acc-") {
@@ -290,8 +357,17 @@ func runCKKSBinary(c *eng.Ctx, cfg pcfg, api string) {
 			if v.onlyCt && b.class != "ct" && b.class != "pt" {
 				continue
 			}
-			ws := v.withSame && b.kind == "ct1"
-			runBinary(t, s, row, v.name, a, b, acc, ws)
+			vn := v.name
+			if b.sub != "" {
+				// boundary values: once per method, at the top level
+				if v.name != "eq" {
+					continue
+				}
+				vn += "/x:" + b.sub
+				c.Count("boundary_operand_rows", 1)
+			}
+			ws := v.withSame && b.kind == "ct1" && b.sub == ""
+			runBinary(t, s, row, vn, a, b, acc, ws)
 		}
 	}
 }
@@ -382,9 +458,12 @@ func runCKKSUnary(c *eng.Ctx, cfg pcfg, name string) {
 		name  string
 		lvl   int
 		scale string
-	}{{"top", L, "sq"}, {"lvl-1", L - 1, "x3"}, {"lvl1", 1, ""}} {
+	}{{"top", L, "sq"}, {"lvl-1", L - 1, "x3"}, {"lvl1", 1, ""}, {"lvl0", 0, ""}} {
 		if e.cfg.Ring == "ci" && strings.HasSuffix(apiOf(name), "Conjugate") {
 			continue
+		}
+		if row.outLvl != nil && row.outLvl(v.lvl) < 0 {
+			continue // no level left to consume
 		}
 		a := e.ct(v.lvl, v.scale, u.deg)
 		runUnary(t, s, row, sub, v.name, a, extra)
